@@ -295,6 +295,9 @@ func expandJob(w *gen.World, kind int, cache func() spec.ResolutionCache) func()
 func c17World(rng interface{ Intn(int) int }, seed int64, idx, g int, acyclicOnly bool) *gen.World {
 	r := core.Rng(seed, "C17/world", idx*1000+g)
 	o := gen.WorldOpts{NDocs: 1 + r.Intn(3), Cyclic: !acyclicOnly && r.Intn(2) == 0, Nested: r.Intn(2) == 0, Chains: r.Intn(2) == 0, Elements: 2 + r.Intn(2), MaxDepth: 1 + r.Intn(2), RefDensity: 0.6}
+	if !acyclicOnly && r.Intn(4) == 0 {
+		o.IDs = 6 // ids that are not URIs, a different one at every place
+	}
 	if !acyclicOnly && r.Intn(3) == 0 {
 		o.MissingDoc, o.Dangling, o.HollowDoc = 0.15, 0.1, 0.15 // calls that fail must fail the same way, and must not hold up the others
 	}
@@ -408,6 +411,14 @@ func c17Run(env *core.Env, idx int) core.CaseResult {
 		dg.Refs, dg.XOrder = true, true
 		dg.Density = 1.5
 		doc := dg.Swagger(nil)
+		// one definition is an absolute reference to another document: its Ref value is copied out of the shared document by resolvers
+		defs, _ := doc["definitions"].(map[string]interface{})
+		if defs == nil {
+			defs = map[string]interface{}{}
+			doc["definitions"] = defs
+		}
+		defs["c17abs"] = map[string]interface{}{"$ref": "file:///c17/shared/other.json#/definitions/Shared"}
+		otherDoc := json.RawMessage(`{"definitions":{"Shared":{"title":"shared definition of the other document","type":"object"}}}`)
 		text, _ := json.Marshal(doc)
 		sw := new(spec.Swagger)
 		if err := json.Unmarshal(text, sw); err != nil {
@@ -426,6 +437,19 @@ func c17Run(env *core.Env, idx int) core.CaseResult {
 			jobs = append(jobs, c17Job{name: fmt.Sprintf("g%d", g), run: func() ([]byte, error) {
 				var buf bytes.Buffer
 				for rep := 0; rep < 3; rep++ {
+					if g%4 == 2 {
+						// resolution through a copy of a Ref value that lives in the shared document (read-only for it)
+						ref := sw.Definitions["c17abs"].Ref
+						s, err := spec.ResolveRefWithBase(nil, &ref, &spec.ExpandOptions{RelativeBase: "file:///c17/shared/root.json",
+							PathLoader: func(string) (json.RawMessage, error) { return otherDoc, nil }})
+						if err != nil {
+							return nil, err
+						}
+						b, _ := json.Marshal(s)
+						buf.Write(b)
+						buf.WriteString(ref.String())
+						continue
+					}
 					if g%4 == 3 {
 						// gob transport of the shared document (read-only for it as well)
 						var gb bytes.Buffer
@@ -471,15 +495,24 @@ func c17Run(env *core.Env, idx int) core.CaseResult {
 	case "cache-history":
 		return c17CacheHistory(env, idx, N, &res, wit)
 	}
-	// sequential references (the answers each call gives running alone)
-	for i := range jobs {
-		if jobs[i].ref == nil {
-			b, err := jobs[i].run()
-			if err != nil {
-				b = []byte("ERROR: " + err.Error())
+	// sequential references (the answers each call gives running alone): before the concurrent passes, or - every other case - after
+	// the first one, so that whatever the package does "the first time it sees something" happens under concurrency as well
+	computeRefs := func() {
+		for i := range jobs {
+			if jobs[i].ref == nil {
+				b, err := jobs[i].run()
+				if err != nil {
+					b = []byte("ERROR: " + err.Error())
+				}
+				jobs[i].ref = b
 			}
-			jobs[i].ref = b
 		}
+	}
+	refsFirst := idx%2 == 0
+	if refsFirst {
+		computeRefs()
+	} else {
+		res.Count("references-computed-after-the-first-concurrent-pass", 1)
 	}
 	for pass := 0; pass < 2; pass++ {
 		var rec *overlapRecorder
@@ -498,6 +531,9 @@ func c17Run(env *core.Env, idx int) core.CaseResult {
 			}
 		}
 		outs, errs, pans := runConcurrently(jobs, rec)
+		if !refsFirst && pass == 0 {
+			computeRefs()
+		}
 		res.Evals += len(jobs)
 		for i, j := range jobs {
 			got := outs[i]
@@ -832,7 +868,7 @@ func ColdStartChild(seed int64) int {
 }
 
 func init() {
-	floors := []string{"world-with-null-document", "workload.distinct-documents", "workload.shared-cache", "workload.shared-document", "workload.cache-history", "workload.cold-start",
+	floors := []string{"references-computed-after-the-first-concurrent-pass", "world-with-null-document", "workload.distinct-documents", "workload.shared-cache", "workload.shared-document", "workload.cache-history", "workload.cold-start",
 		"cases-with-overlap", "yield-events", "cache-histories-linearizable", "cache-history-operations"}
 	for _, n := range []int{2, 4, 8, 16, 64} {
 		floors = append(floors, fmt.Sprintf("goroutines.%d", n))
